@@ -56,13 +56,14 @@ def check_line(row):
 
 def run(tier, replay=None):
     run = C.Run(PID, tier, "model_checking")
-    cfg = "MC_JsonLine_quick.cfg" if tier == "quick" else "MC_JsonLine_thorough.cfg"
-    res = C.run_tlc("MC_JsonLine", cfg, "c12_" + tier, workers=8, timeout=2400, coverage=False)
-    if res.inv_violated:
-        run.mismatch({"kind": "model", "invariant": res.inv_violated}, {"tlc": res.error_text[:4000]})
-        return run.finish()
-    run.add_tlc(res)
-    cases = res.replays
+    cases = []
+    for cfg in ["MC_JsonLine_quick.cfg"] + (["MC_JsonLine_thorough.cfg"] if tier == "thorough" else []):
+        res = C.run_tlc("MC_JsonLine", cfg, "c12_" + tier, workers=8, timeout=2400, coverage=False)
+        if res.inv_violated:
+            run.mismatch({"kind": "model", "invariant": res.inv_violated}, {"tlc": res.error_text[:4000]})
+            return run.finish()
+        run.add_tlc(res)
+        cases += res.replays
     wd = C.workdir("c12_" + tier)
     inp, outp = os.path.join(wd, "cases.ndjson"), os.path.join(wd, "out.ndjson")
     C.write_ndjson(inp, cases)
@@ -86,8 +87,8 @@ def run(tier, replay=None):
     run.samples = cases[len(cases) // 2: len(cases) // 2 + 2]
     run.exhaustive = True
     run.rule = ("every record in which at most two of {message, target, module path, file, thread name, line, level, "
-                "MDC} deviate from a default, text fields being all class sequences of length <= 2 (quick) / 3 "
-                "(thorough) over {plain, quote, backslash, LF, CR, other C0 control, DEL, 2-/3-/4-byte, U+2028}, "
+                "MDC} deviate from a default, text fields being all class sequences of length <= 2 (thorough adds: one field at a "
+                "time with length <= 3) over {plain, quote, backslash, LF, CR, other C0 control, DEL, 2-/3-/4-byte, U+2028}, "
                 "optional fields present / absent, thread named / unnamed, line absent / 0 / u32::MAX, MDC maps of 0-2 "
                 "entries; classes are instantiated with several representatives; non-trivial = a text field contains "
                 "a non-plain class")
